@@ -60,23 +60,37 @@ func (t *token) rename(v string) {
 }
 
 func (t *token) Int() int {
-	if len(t.Text) > 2 && t.Text[:2] == "0x" {
-		v, err := strconv.ParseInt(t.Text[2:], 16, 0)
+	// the parser folds a leading minus into the text of a literal: -0x10, -010, - -5 ("--5")
+	text, neg := t.Text, false
+	for strings.HasPrefix(text, "-") {
+		text, neg = text[1:], !neg
+	}
+	if len(text) > 2 && (text[:2] == "0x" || text[:2] == "0X") {
+		v, err := strconv.ParseInt(text[2:], 16, 0)
 		if err != nil {
 			panicf("error parsing hex: %v", err)
 		}
-		return int(v)
-	}
-	if len(t.Text) > 1 && t.Text[0] == '0' {
-		v, err := strconv.ParseInt(t.Text[1:], 8, 0)
-		if err != nil {
-			panicf("error parsing octal: %v", err)
+		if neg {
+			v = -v
 		}
 		return int(v)
 	}
-	v, err := strconv.Atoi(t.Text)
+	if len(text) > 1 && text[0] == '0' {
+		v, err := strconv.ParseInt(text[1:], 8, 0)
+		if err != nil {
+			panicf("error parsing octal: %v", err)
+		}
+		if neg {
+			v = -v
+		}
+		return int(v)
+	}
+	v, err := strconv.Atoi(text)
 	if err != nil {
 		panicf("error parsing int: %v", err)
+	}
+	if neg {
+		v = -v
 	}
 	return int(v)
 }
